@@ -142,6 +142,47 @@ def patrol(chk, n):
     return bad
 
 
+def intrinsic_patrol(chk, n):
+    """heavy-quark initiated (intrinsic) channels of the massive schemes: compute_local treats them differently (no factorisation log at all,
+    renormalisation logs as everybody else) — the rows of the massive quark itself come from those channels only"""
+    bad, dist = [], {}
+    for i in range(n):
+        proc, kind, hq, nfff = [("CC", "F2", "charm", 3), ("NC", "F2", "charm", 3), ("CC", "F3", "charm", 3), ("EM", "FL", "bottom", 4), ("CC", "FL", "charm", 3)][i % 5]
+        Q2 = common.dyadic(chk.rng, 8.0, 60.0, 6)
+        ren, fact = [(True, True), (True, False), (False, True)][i % 3]
+        th = cards.theory_card(FNS="FFNS", NfFF=nfff, PTO=2, PTODIS=2, RenScaleVar=ren, FactScaleVar=fact)
+        name = kind + "_" + hq
+        dist["%s/%s/ren%d/fact%d" % (proc, name, ren, fact)] = dist.get("%s/%s/ren%d/fact%d" % (proc, name, ren, fact), 0) + 1
+        pt = dict(x=chk.rng.choice([0.125, 0.25]), Q2=Q2)
+        try:
+            res = runs.run(th, cards.obs_card({name: [pt]}, prDIS=proc, ProjectileDIS="neutrino" if proc == "CC" else "electron"))[name][0]
+        except Exception:  # noqa
+            continue
+        pid = {"charm": 4, "bottom": 5}[hq]
+        rows = [spec.PIDS.index(pid), spec.PIDS.index(-pid)]
+        w = None
+        for k in res.orders:
+            t = runs.tensor(res, k)
+            if k[3] > 0 and float(np.max(np.abs(t[rows]))) > 0.0:
+                w = dict(relation="intrinsic rows carry a factorisation log", key=list(k), value=float(np.max(np.abs(t[rows]))))
+        if ren:
+            a, b = runs.tensor(res, (1, 0, 0, 0)), runs.tensor(res, (2, 0, 1, 0))
+            if a is not None:
+                b = b if b is not None else 0.0 * a
+                d = float(np.max(np.abs(b[rows] + beta0(nfff) * a[rows])))
+                if d > 1e-10 * max(1.0, float(np.max(np.abs(a[rows]))) * 11):
+                    w = dict(relation="(2,0,1,0) = -beta0 (1,0,0,0) on the rows of the massive quark", diff=d, lhs=float(np.max(np.abs(b[rows]))), rhs=float(beta0(nfff) * np.max(np.abs(a[rows]))))
+        if w:
+            w.update(point=pt, nf=nfff)
+            bad.append((dict(theory=dict(FNS="FFNS", NfFF=nfff, PTO=2, RenScaleVar=ren, FactScaleVar=fact), obs=dict(prDIS=proc), name=name, points=[pt]), w))
+    chk.patrol["intrinsic_rows"] = dict(cases=n, failures=len(bad), distribution=dist,
+                                        rule="FFNS runs at NNLO (CC/NC/EM, charm/bottom massive): the rows of the massive quark itself (intrinsic channels only) have no lnF term in any key "
+                                             "and obey (2,0,1,0) = -beta0(NfFF) (1,0,0,0)")
+    for c, r in bad[:2]:
+        chk.violation("rge:intrinsic:%s" % c["obs"]["prDIS"], "scale-variation rule for heavy-quark initiated channels fails on a real run (%s, FFNS NfFF=%d): %s" % (c["name"], c["theory"]["NfFF"], r), dict(intrinsic=c, result=r))
+    return bad
+
+
 def moment(rsl, N):
     """N-th Mellin moment of a distribution given as an RSL object"""
     from scipy.integrate import quad
@@ -181,6 +222,7 @@ def run(chk):
     quick = chk.tier == "quick"
     common.check_props_file(chk, "C05")
     h3_patrol(chk)
+    intrinsic_patrol(chk, 6 if chk.tier == "quick" else 30)
     bad = scalevar.run_scalevar(chk, 50 if quick else 600)
     chk.oblige("correspondence ScaleVariations (model = real manager, multi-nf sequences)", not bad, str(bad[:1])[:600])
     patrol(chk, 5 if quick else 60)
@@ -194,6 +236,11 @@ def run(chk):
 def replay(path):
     import json
     r = json.load(open(path))
+    if "intrinsic" in r["replay"]:
+        c = r["replay"]["intrinsic"]
+        th = cards.theory_card(**c["theory"], PTODIS=c["theory"]["PTO"])
+        res = runs.run(th, cards.obs_card({c["name"]: c["points"]}, prDIS=c["obs"]["prDIS"], ProjectileDIS="neutrino" if c["obs"]["prDIS"] == "CC" else "electron"))[c["name"]][0]
+        print("replay: keys and max |rows of the massive quark|:", {str(k): float(np.max(np.abs(runs.tensor(res, k)[[spec.PIDS.index(4), spec.PIDS.index(-4)]]))) for k in res.orders}); return 1
     c = r["replay"].get("case")
     if not c:
         print("replay names a broken theorem/correspondence only:", r["what"]); return 1
